@@ -19,7 +19,7 @@ import (
 // Verify is asked to confirm; for a forged/tampered proof it is the output the
 // proof itself hashes to (the most favourable choice for an accepting bug).
 func vrfAccepts(pk, proof, msg []byte) (accepted bool, how string, out []byte) {
-	out, err := vrf.VerifyAndHash(pk, proof, msg)
+	out, err := vrfVerifyAndHash(pk, proof, msg)
 	if err == nil {
 		return true, "VerifyAndHash returned nil error", out
 	}
@@ -27,7 +27,7 @@ func vrfAccepts(pk, proof, msg []byte) (accepted bool, how string, out []byte) {
 	if perr != nil {
 		exp = make([]byte, 64)
 	}
-	ok, err := vrf.Verify(pk, proof, exp, msg)
+	ok, err := vrfVerify(pk, proof, exp, msg)
 	if ok {
 		return true, fmt.Sprintf("Verify returned true (err=%v)", err), exp
 	}
@@ -67,7 +67,11 @@ func genSeed32(rt *rapid.T, label string) []byte {
 }
 
 func genAlpha(rt *rapid.T) ([]byte, string) {
-	switch rapid.IntRange(0, 5).Draw(rt, "alphaKind") {
+	switch rapid.IntRange(0, 7).Draw(rt, "alphaKind") {
+	case 6, 7:
+		// lengths around the SHA-512 block boundaries of suite||0x01||pk||alpha (34+n = 128k) and of alpha itself
+		n := rapid.SampledFrom([]int{30, 31, 32, 33, 62, 63, 64, 65, 93, 94, 95, 96, 110, 111, 112, 126, 127, 128, 129, 221, 222, 223, 255, 256, 257}).Draw(rt, "alphaBoundaryLen")
+		return rapid.SliceOfN(rapid.Byte(), n, n).Draw(rt, "alpha"), "alpha_block_boundary"
 	case 0:
 		return []byte{}, "alpha_empty"
 	case 1:
@@ -188,6 +192,13 @@ func TestC38(t *testing.T) {
 		t.Fatalf("harness: only %d of %d small-order forgeries succeeded", forgedOK, forgedTotal)
 	}
 
+	// ---- every message length once, with changes confined to the end of the message
+	if rec.Thorough() {
+		c38LengthSweep(rec, 700, []int{1023, 1024, 1025, 4096, 65535, 65536, 65537, 100000})
+	} else {
+		c38LengthSweep(rec, 300, []int{65537})
+	}
+
 	two256 := new(big.Int).Lsh(big1, 256)
 	msgFlipBudget := 64
 
@@ -196,6 +207,7 @@ func TestC38(t *testing.T) {
 		alpha, aclass := genAlpha(rt)
 		rec.Class(aclass)
 		cs := map[string]any{"seed": evi.Hex(seed), "alpha": evi.Hex(alpha)}
+		seedOrig := clone(seed)
 
 		pk, sk, err := vrf.KeyGen(seed)
 		if err != nil {
@@ -328,6 +340,8 @@ func TestC38(t *testing.T) {
 				msgs = append(msgs, flipBit(alpha, b))
 			}
 		}
+		// always: the end of the message (last two bytes bit by bit, truncations, extensions)
+		msgs = append(msgs, c38TailVariants(alpha)...)
 		msgs = append(msgs, append(append([]byte(nil), alpha...), rapid.Byte().Draw(rt, "ext")))
 		if len(alpha) > 0 {
 			msgs = append(msgs, alpha[:len(alpha)-1])
@@ -395,6 +409,11 @@ func TestC38(t *testing.T) {
 			}
 		}
 		rec.EvalN(2)
+
+		// (8) purity / history independence, special proofs, failure paths (c38_extra_test.go)
+		if !c38Purity(rt, rec, cs, seed, seedOrig, pk, sk, alpha, proof, out, encs) {
+			return
+		}
 
 		rec.NonTrivial(fmt.Sprintf("%x|%x", seed, alpha), map[string]any{
 			"seed": evi.Hex(seed), "alpha": evi.Hex(alpha), "pk": evi.Hex(pk), "proof": evi.Hex(proof), "output": evi.Hex(out),
